@@ -32,7 +32,7 @@ EXPLANATION = (
     '(.metric, .met, .solb, .sol, .txt, .bin, .rst) with reduce_byte_limit chunks of 1..3 rows; oracles: tensor recovered = '
     'tensor stored by component NAME, entry g <-> vertex g on every rank.  '
     '.RST AND .SNAP READERS (work package formats; Model/FormatsBin.lean partScalarRst / partScalarSnap built on the same chunk '
-    'loop Sol.scatterFile, Props/C09Formats.lean): FIELDS_THEOREMS.  Tie: formats_fields (h_sol, one rank with ASan) and '
+    'loop Sol.scatterFile, Props/C09Formats.lean): rst_layout_two_ranks (a concrete 3-vertex, 2-variable, 2-step file on two ranks with ghost copies and chunk floor 2: vertex g of every rank ends with [step0 var0, step0 var1, step1 var0, step1 var1] of file vertex g); a general .rst / .snap layout theorem is NOT proved (the byte-level RowStream lemma and the per-pass theorem exist only as scratch work), the general claim rests on the tie.  Tie: formats_fields (h_sol, one rank with ASan) and '
     'formats_rst_mpi (np = 2, 3 under mpiexec): the real ref_part_scalar on .rst (1..3 variables x 1..3 steps, dof >= vertices) '
     'and .snap (versions 2 and 3, 1..4 fields, vertex count n / 2n / 2n+1) files from independent writers, chunk floors from 1 '
     'up so that several passes occur; per-rank values == model, oracle: == what an independent parser reads for that vertex.  '
